@@ -24,7 +24,8 @@ TERMS = [('~', '*', ':', '^', '\n'), ('!', '|', '>', '^', ''), ('\x1c', '\x1d', 
          ('\'', '+', ':', '!', '\n'), ('$', '^', '&', '#', '')]
 BODY = ['BHT*0019*00*1', 'NM1*85*2*X', 'REF*87*1', 'HL*1**20*1', 'SV1*HC:99213*40*UN*1', 'SV1*HC:99213:25::*40', 'N3*1 MAIN ST**', 'DTP*472*D8*20040407',
         'CLM*A1*100***11:B:1*Y', 'LX*1', 'PER*IC*X*TE*5551212***', 'K3*A  B',
-        'REF', 'REF**', 'N3*', 'SV1*::*', 'LS*2120', 'LE*2120', 'LE*2700', 'LS*2700']          # segments without any data: written as '<id><sep><terminator>' and counted like any other
+        'REF', 'REF**', 'N3*', 'SV1*::*', 'LS*2120', 'LE*2120', 'LE*2700', 'LS*2700',
+        'HL*2*1*22*0', 'HL*3*7*23*0', 'HL*X*Y*20*1', 'HL*4**20', 'LX*7', 'CLM*A1*100', 'LX*1', 'LX*1']      # hierarchy / service-line numbers the reader has opinions about: still body segments, counted once          # segments without any data: written as '<id><sep><terminator>' and counted like any other
 
 
 def gen(rng):
